@@ -40,7 +40,7 @@ def excluded_counts(g, *lays):
 
 
 def comment_only_opts(names):
-    return layout.FreeOpts(comments=25, trailing=20, blank_lines=10, indent=True, names=names)
+    return layout.FreeOpts(comments=25, trailing=20, blank_lines=10, indent=True, names=names, directives=25)
 
 
 def first_word(line):
